@@ -13,5 +13,5 @@ for d in /tmp/agents/out/C??b /tmp/agents/out/C??r; do
     jobs_list+=("$kind $d $i $id")
   done
 done
-printf '%s\n' "${jobs_list[@]}" | grep . | xargs -P 4 -L 1 bash -c 'python3 /verif/tools/confirm.py $0 $1 $2 $3 > /root/work/confirmed/$3.log 2>&1'
+printf '%s\n' "${jobs_list[@]}" | grep . | xargs -P 6 -L 1 bash -c 'python3 /verif/tools/confirm.py $0 $1 $2 $3 > /root/work/confirmed/$3.log 2>&1'
 cat /root/work/confirmed/*.log | grep -v "^$" | tail -80
